@@ -648,8 +648,19 @@ class _ParamUpdater(Thread):
         self.cf.add_port_callback(CRTPPort.PARAM, self._new_packet_cb)
         self._should_close = False
         self._lock_pattern = None
+        # Number of the connection the requests belong to, see close()
+        self._session = 0
+
+    def _put(self, pk):
+        self.request_queue.put((self._session, pk))
 
     def close(self):
+        # A request the thread has already taken from the queue, or that is put on the
+        # queue by a call that started before this point, was built for the Crazyflie
+        # that is being disconnected (its parameter indexes and types): it must not be
+        # sent to the Crazyflie of the next connection
+        self._session += 1
+
         # First empty the queue from all packets
         try:
             while True:
@@ -668,12 +679,12 @@ class _ParamUpdater(Thread):
     def request_param_setvalue(self, pk):
         """Place a param set value request on the queue. When this is sent to
         the Crazyflie it will answer with the update param value. """
-        self.request_queue.put(pk)
+        self._put(pk)
 
     def send_param_misc(self, pk):
         """Place a param misc request on the queue. When this is sent to
         the Crazyflie it will answer with the same var_id and command. """
-        self.request_queue.put(pk)
+        self._put(pk)
 
     def _new_packet_cb(self, pk):
         """Callback for newly arrived packets"""
@@ -713,13 +724,13 @@ class _ParamUpdater(Thread):
         else:
             pk.data = struct.pack('<B', var_id)
         logger.debug('Requesting request to update param [%d]', var_id)
-        self.request_queue.put(pk)
+        self._put(pk)
 
     def run(self):
         while not self._should_close:
-            pk = self.request_queue.get()  # Wait for request update
+            session, pk = self.request_queue.get()  # Wait for request update
             self.wait_lock.acquire()
-            if self.cf.link:
+            if self.cf.link and session == self._session:
                 # Requests that do not pass through request_param_update() (set value, misc)
                 # must use the index width of the connected Crazyflie as well
                 self._useV2 = self.cf.platform.get_protocol_version() >= 4
